@@ -264,6 +264,13 @@ func (r *Run) Finish() int {
 	for k, v := range r.Extra {
 		cov[k] = v
 	}
+	if r.Assume == nil {
+		r.Assume = []string{"interface calls resolve to the repository's own implementations (CHA); third-party implementations are outside the claim"}
+	}
+	if r.Trusted == nil {
+		r.Trusted = []string{"go/types, go/cfg"}
+	}
+	cov["trusted_base"] = r.Trusted
 	ev := map[string]interface{}{
 		"property_id": r.Property,
 		"tier":        tier,
